@@ -264,6 +264,9 @@ func ruleFU(c *Ctx, part string) {
 				if f, base, ok := fieldAddr(st.Addr); ok && f == h.frag && origin(base) == recv {
 					if call, ok := st.Val.(*ssa.Call); ok && calleeName(&call.Call) == "builtin.append" {
 						nAppend++
+						if part == "append" && s.Start == 1 && !s.Cleared {
+							viol["a start fragment is appended without the fragment list having been cleared first: when an earlier unit lost its end fragment, its stale fragments are assembled in front of the next, complete unit (spliced unit)"] = ins
+						}
 						if part == "append" && !(s.Start == 1 || s.Open == 1) {
 							viol["a fragment is appended on a path where neither the start bit was seen on this packet nor a unit is open (len(fragments) != 0): after a lost start fragment, a middle/end fragment opens a unit without its head and the end fragment emits it"] = ins
 						}
